@@ -18,7 +18,7 @@ try:
     shutil.copy(os.path.join(out, demo), dst)
     cmd = "go test -vet=off -count=1 -run '%s' ./%s/" % (regex, pkgdir)
     rc0, o0 = sh(cmd, cwd=wt); ran.append({"cmd": cmd + "   (pristine)", "rc": rc0})
-    rc, o = sh("git apply %s" % os.path.join(out, "patch%s.diff" % k), cwd=wt); assert rc == 0, o
+    rc, o = sh("git apply %s || git apply -3 %s || patch -p1 -F3 < %s" % ((os.path.join(out, "patch%s.diff" % k),)*3), cwd=wt); assert rc == 0, o
     rcb, ob = sh("go build ./... && go build -tags verif ./...", cwd=wt); ran.append({"cmd": "go build ./... (+ -tags verif)", "rc": rcb})
     rc1, o1 = sh(cmd, cwd=wt); ran.append({"cmd": cmd + "   (with patch)", "rc": rc1})
     os.remove(dst)
